@@ -155,10 +155,11 @@ def main(tier):
     bld = h5_build()
     cfgs = [(4, 1, 8, 2), (4, 2, 12, 2)] if tier == 'quick' else [(4, 1, 8, 2), (4, 2, 12, 2), (5, 3, 20, 3), (6, 1, 9, 1), (3, 2, 8, 0)]
     jobs = [(job_layout, c) for c in cfgs] + [(job_append, c) for c in cfgs]
-    try:
-        import mainloop
-        jobs += mainloop.jobs_for('C10', tier)
-    except ImportError: pass
+    import mainloop, c09, c06, c07
+    jobs += mainloop.jobs_for('C10', tier)
+    # value clauses of the statement: stored moments are the moments of the stored profiles (C09), stored wake is the convolution (C06), intensity is the sum of the spectrum (C07)
+    jobs += [(c09.job_moments, (6, 3, 2, ax, (-6, 6), (-6, 6))) for ax in (0, 1)] + [(c09.job_moments, (5, 2, 1, ax, (-5, 7), (-6.5, 5.5))) for ax in (0, 1)] + [(c09.job_normalize, (4, 3, 2))]
+    jobs += [(c06.job_structure, (4, 12, 5, (1, 0))), (c07.job_spectrum, (4, 12, 5, (1, 0), 0))]
     chk.bounds = {'configurations (n, bunches, padded length N, particles)': cfgs, 'symbolic': 'contents of both axes, frequency ruler, impedance, charge/current/unit factors, t_sync, f_rev, every source array of every append',
                   'records': 'first and second record of each dataset (offset = current record count, taken from the object)'}
     chk.assumptions = ['libhdf5_cpp is a correct store: what is passed to DataSet::write / Attribute::write with a hyperslab is what the file holds (recorder model; chunking, compression, soft-link resolution not modelled)',
